@@ -1,1 +1,75 @@
-// contract harnesses for trust-runtime/src/runtime_core (included by the verification hook)
+// Contract harnesses for the runtime module (hooked at the end of runtime/core.rs)  (C08)
+//
+// IoSubsystem::apply_safe_state: after Ok, the output image holds the safe values AND every
+// registered driver was handed that image exactly once -- whatever health the driver reports
+// (a driver whose bus error caused the fault is the one that most needs the safe image).
+
+use super::super::io_subsystem::IoSubsystem;
+use crate::error::RuntimeError;
+use crate::io::{IoAddress, IoDriver, IoDriverHealth, IoSafeState, IoSize};
+use crate::memory::IoArea;
+use crate::value::Value;
+use std::sync::atomic::{AtomicUsize, Ordering};
+
+fn fixed_rs() -> std::hash::RandomState {
+    verif_support::fixed_random_state()
+}
+
+static CALLS_A: AtomicUsize = AtomicUsize::new(0);
+static CALLS_B: AtomicUsize = AtomicUsize::new(0);
+static SEEN_A: AtomicUsize = AtomicUsize::new(0xFFFF);
+static SEEN_B: AtomicUsize = AtomicUsize::new(0xFFFF);
+
+struct MockDriver {
+    which: u8,
+    faulted: bool,
+}
+
+impl IoDriver for MockDriver {
+    fn read_inputs(&mut self, _inputs: &mut [u8]) -> Result<(), RuntimeError> {
+        Ok(())
+    }
+    fn write_outputs(&mut self, outputs: &[u8]) -> Result<(), RuntimeError> {
+        let first = if outputs.is_empty() { 0x100 } else { outputs[0] as usize };
+        if self.which == 0 {
+            CALLS_A.fetch_add(1, Ordering::SeqCst);
+            SEEN_A.store(first, Ordering::SeqCst);
+        } else {
+            CALLS_B.fetch_add(1, Ordering::SeqCst);
+            SEEN_B.store(first, Ordering::SeqCst);
+        }
+        Ok(())
+    }
+    fn health(&self) -> IoDriverHealth {
+        if self.faulted {
+            IoDriverHealth::Faulted { error: "bus".into() }
+        } else {
+            IoDriverHealth::Ok
+        }
+    }
+}
+
+// @unit id=io.safe_state.drivers props=C08 tier=quick kind=bounded bound="2 drivers (symbolic health), one BYTE safe-state entry at %QB0 (value full domain), 2-byte image" timeout=1200 fn=IoSubsystem::apply_safe_state,IoSafeState::apply
+#[kani::proof]
+#[kani::stub(std::hash::RandomState::new, fixed_rs)]
+#[kani::unwind(8)]
+fn io_safe_state_drivers() {
+    let mut io = IoSubsystem::new();
+    io.resize(0, 2, 0);
+    let fa: bool = kani::any();
+    let fb: bool = kani::any();
+    io.add_driver("a", Box::new(MockDriver { which: 0, faulted: fa }));
+    io.add_driver("b", Box::new(MockDriver { which: 1, faulted: fb }));
+    let v: u8 = kani::any();
+    let addr = IoAddress { area: IoArea::Output, size: IoSize::Byte, byte: 0, bit: 0, path: vec![0], wildcard: false };
+    io.set_safe_state(IoSafeState { outputs: vec![(addr, Value::Byte(v))] });
+    let r = io.apply_safe_state();
+    let ok = matches!(&r, Ok(()));
+    std::mem::forget(r);
+    assert!(ok, "applying the safe state succeeds when every driver accepts the image");
+    assert!(CALLS_A.load(Ordering::SeqCst) == 1 && CALLS_B.load(Ordering::SeqCst) == 1, "every driver receives the image exactly once, whatever its health");
+    assert!(SEEN_A.load(Ordering::SeqCst) == v as usize && SEEN_B.load(Ordering::SeqCst) == v as usize, "the delivered image holds the safe value");
+    kani::cover!(fa && !fb);
+    kani::cover!(!fa && fb);
+    std::mem::forget(io);
+}
